@@ -178,6 +178,10 @@ class CallMixin:
         if v.ty.kind == "opaque":
             f = self.w.func(f"type_of<{v.ty.name}>", self.w.sort(v.ty), self.w.sort(T.TYPE))
             return f(v.term)
+        if v.ty.kind == "opt":
+            s = self.w.sort(v.ty)
+            inner = SV(s.accessor(1, 0)(v.term), v.ty.args[0])
+            return z3.If(s.recognizer(0)(v.term), self.w.type_const("NoneType"), self.type_of(inner, line))
         if v.ty.kind == "obj":
             return self.w.type_const(v.ty.name)
         if v.ty.kind == "union":
@@ -946,6 +950,52 @@ class CallMixin:
             return z3.eq(a[1], b[1])
         return a == b
 
+    def named_list(self, new: SV, old: SV | None = None, keep=None) -> SV:
+        """Give a freshly computed list value a name (field-wise definition), so that quantifier triggers over it
+        are plain `select(arr(name), i)` terms; `keep` = number of leading elements shared with `old` (forward
+        trigger: every old[j] makes name[j] appear)."""
+        if self.binders or new.term is None:
+            return new
+        named = self.w.fresh(new.ty, "lst")
+        s = self.w.sort(new.ty)
+        _, nlen, narr = self.lst(new)
+        self.st.pc.append(s.accessor(0, 0)(named) == nlen(new.term))
+        self.st.pc.append(s.accessor(0, 1)(named) == narr(new.term))
+        if old is not None and old.term is not None and keep is not None:
+            jj = z3.Const(f"kp${len(self.binders)}", z3.IntSort())
+            o = self.list_get(old, jj)
+            if self._pattern_safe(o):
+                try:
+                    self.side_fact(z3.ForAll([jj], z3.Implies(z3.And(0 <= jj, jj < keep),
+                                                              z3.Select(s.accessor(0, 1)(named), jj) == o),
+                                             patterns=[o], qid="list-keep"))
+                except z3.Z3Exception:
+                    pass  # only a trigger hint
+        return SV(named, new.ty, fresh=True)
+
+    def _shift_axiom(self, old: SV, new: SV, where, n, skip=None):
+        """forward trigger for structural list updates: every element term old[j] makes its image new[where(j)]
+        appear (the lambda definition of `new` alone only rewrites selects that already exist)"""
+        jj = z3.Const(f"sh${len(self.binders)}", z3.IntSort())
+        o = self.list_get(old, jj)
+        guard = z3.And(0 <= jj, jj < n)
+        if skip is not None:
+            guard = z3.And(guard, jj != skip)
+        named = self.w.fresh(new.ty, "shifted")
+        s = self.w.sort(new.ty)
+        # field-wise definition (not `named == mk(..)`): the solver's equation solving would otherwise substitute
+        # the name away and with it every trigger that mentions it
+        _, nlen, narr = self.lst(new)
+        self.st.pc.append(s.accessor(0, 0)(named) == nlen(new.term))
+        self.st.pc.append(s.accessor(0, 1)(named) == narr(new.term))
+        if self._pattern_safe(o):
+            try:
+                self.side_fact(z3.ForAll([jj], z3.Implies(guard, z3.Select(s.accessor(0, 1)(named), where(jj)) == o),
+                                         patterns=[o], qid="list-shift"))
+            except z3.Z3Exception:
+                pass  # only a trigger hint
+        return SV(named, new.ty, fresh=True)
+
     def list_method(self, recv: SV, name, args, kwargs, line):
         if name == "append":
             x = args[0]
@@ -955,7 +1005,7 @@ class CallMixin:
                 x = self.coerce(x, T.Tuple(*[i.ty for i in x.items]))
             recv = self._typed_list(recv, x.ty if isinstance(x, SV) else None, line)
             x = self.coerce(self.embed(x, line), recv.ty.args[0], line)
-            self.mutate(recv, self.list_append_val(recv, x), line)
+            self.mutate(recv, self.named_list(self.list_append_val(recv, x), recv, self.list_len(recv)), line)
             return SV(None, T.NONE)
         if name == "extend":
             other = args[0]
@@ -969,20 +1019,27 @@ class CallMixin:
                 return SV(None, T.NONE)
             recv = self._typed_list(recv, other.ty.args[0], line)
             other = self.coerce(other, recv.ty, line)
-            self.mutate(recv, self.list_concat(recv, other, line), line)
+            self.mutate(recv, self.named_list(self.list_concat(recv, other, line), recv, self.list_len(recv)), line)
             return SV(None, T.NONE)
         if name == "insert":
             x = args[1]
             recv = self._typed_list(recv, x.ty if isinstance(x, SV) else None, line)
             x = self.coerce(self.embed(x, line), recv.ty.args[0], line)
             n = self.list_len(recv)
-            i0 = self.coerce(args[0], T.INT).term
-            i0 = z3.If(i0 < 0, z3.If(i0 + n < 0, 0, i0 + n), z3.If(i0 > n, n, i0))
+            i0 = z3.simplify(self.coerce(args[0], T.INT).term)
             j = z3.Const(f"ins{next(_cc)}", z3.IntSort())
             _, _, arr = self.lst(recv)
-            new = self.mk_list(recv.ty.args[0], n + 1,
-                               z3.Lambda([j], z3.If(j < i0, z3.Select(arr(recv.term), j),
-                                                    z3.If(j == i0, x.term, z3.Select(arr(recv.term), j - 1)))))
+            if z3.is_int_value(i0) and i0.as_long() == 0:
+                # the common case insert(0, x): no clamping, plain shift by one
+                new = self.mk_list(recv.ty.args[0], n + 1,
+                                   z3.Lambda([j], z3.If(j == 0, x.term, z3.Select(arr(recv.term), j - 1))))
+                new = self._shift_axiom(recv, new, lambda jj: jj + 1, n)
+            else:
+                i0 = z3.If(i0 < 0, z3.If(i0 + n < 0, 0, i0 + n), z3.If(i0 > n, n, i0))
+                new = self.mk_list(recv.ty.args[0], n + 1,
+                                   z3.Lambda([j], z3.If(j < i0, z3.Select(arr(recv.term), j),
+                                                        z3.If(j == i0, x.term, z3.Select(arr(recv.term), j - 1)))))
+                new = self._shift_axiom(recv, new, lambda jj: z3.If(jj < i0, jj, jj + 1), n)
             self.kill_refs_through(recv.ref)
             self.mutate(recv, new, line)
             return SV(None, T.NONE)
@@ -1010,8 +1067,14 @@ class CallMixin:
             valc = self.w.fresh(el_t, "popped")
             self.st.pc.append(valc == val.term)
             j = z3.Const(f"pop{next(_cc)}", z3.IntSort())
-            new = self.mk_list(el_t, n - 1, z3.Lambda([j], z3.If(j < i0, z3.Select(arr(recv.term), j),
-                                                                 z3.Select(arr(recv.term), j + 1))))
+            i0s = z3.simplify(i0)
+            if z3.is_int_value(i0s) and i0s.as_long() == 0:
+                new = self.mk_list(el_t, n - 1, z3.Lambda([j], z3.Select(arr(recv.term), j + 1)))
+                new = self._shift_axiom(recv, new, lambda jj: jj - 1, n, skip=z3.IntVal(0))
+            else:
+                new = self.mk_list(el_t, n - 1, z3.Lambda([j], z3.If(j < i0, z3.Select(arr(recv.term), j),
+                                                                     z3.Select(arr(recv.term), j + 1))))
+                new = self._shift_axiom(recv, new, lambda jj: z3.If(jj < i0, jj, jj - 1), n, skip=i0)
             self.kill_refs_through(recv.ref)
             self.mutate(recv, new, line)
             return SV(valc, el_t, fresh=True)
@@ -1027,6 +1090,7 @@ class CallMixin:
             j = z3.Const(f"rmj{next(_cc)}", z3.IntSort())
             new = self.mk_list(el_t, n - 1, z3.Lambda([j], z3.If(j < idx, z3.Select(arr(recv.term), j),
                                                                  z3.Select(arr(recv.term), j + 1))))
+            new = self._shift_axiom(recv, new, lambda jj: z3.If(jj < idx, jj, jj - 1), n, skip=idx)
             self.kill_refs_through(recv.ref)
             self.mutate(recv, new, line)
             self.last_removed_index = idx
@@ -1194,6 +1258,10 @@ class CallMixin:
         if spec.get("pure"):
             av = []
             for x in list(args) + [kwargs[k] for k in sorted(kwargs)]:
+                if isinstance(x, BoundMethod) and isinstance(x.recv, SV) and x.recv.term is not None:
+                    x = x.recv  # a bound method of a value: the value identifies it
+                if isinstance(x, (ModuleRef, ClassRef)):
+                    continue  # library constants (timezone.utc, ...) do not vary
                 if isinstance(x, SV) and x.term is not None:
                     av.append(x.term)
                 elif isinstance(x, SV) and x.ty.kind == "none":
